@@ -48,7 +48,7 @@ man = {
     }],
     'checks': checks,
     'not_applicable': na,
-    'notes': 'Every check is a runtime monitor over executions of the real code; verdicts are three-valued (violated / held on what was observed / inconclusive, the last exits 0 and is flagged in the evidence). known_findings.json lists genuine defects of the pinned tree by narrow signature.',
+    'notes': 'Every check is a runtime monitor over executions of the real code (driver built from /repo\'s working tree on every invocation; cargo is skipped only when no source file changed); verdicts are three-valued (violated / held on what was observed / inconclusive, the last exits 0 and is flagged in the evidence). known_findings.json lists genuine defects of the pinned tree by narrow signature (findings) and the repaired ones (fixed, which suppress nothing); the witness of every listed finding that the generated workload does not hit is replayed on every run. seeded/ holds 46 property-breaking changes written by independent sub-agents, all caught (DESIGN.md section 9). Quick tier: 20-50 s per check on an idle 16-core machine; thorough: 5-15 min (C05/C06 longer: Miri and ThreadSanitizer lanes).',
 }
 json.dump(man, open('MANIFEST.json', 'w'), indent=1)
 print('checks', len(checks), 'not_applicable', len(na))
